@@ -56,6 +56,9 @@ func (vEmpStrategy) PersistEntity(e *vEmp, ctx *PersistContext) {
 
 type vEmpStore struct {
 	*BaseStore[*vEmp]
+	symDepts, symRcDepts      EntitySetSymbol
+	depts                     LinkCollection
+	rcDepts                   RefCountedLinkCollection
 	symName, symNick, symBoss EntitySymbol
 	symRoles, symReports      EntitySetSymbol
 	idxName, idxNick          ReadIndex
@@ -77,6 +80,9 @@ type vStoreCfg struct {
 	fk           int
 	// fkToDept: boss references a second store ("vdepts") instead of vemps
 	fkToDept bool
+	// links: emp.depts <-> dept.members (link collection) and
+	// emp.rcdepts <-> dept.rcmembers (ref-counted link collection)
+	links bool
 }
 
 // ---- target store for foreign keys ----
@@ -108,8 +114,18 @@ func (vDeptStrategy) PersistEntity(e *vDept, ctx *PersistContext) {
 
 type vDeptStore struct {
 	*BaseStore[*vDept]
-	symEmps EntitySetSymbol
+	symEmps                  EntitySetSymbol
+	symMembers, symRcMembers EntitySetSymbol
+	members                  LinkCollection
+	rcMembers                RefCountedLinkCollection
 }
+
+const (
+	vFDepts     = "depts"
+	vFMembers   = "members"
+	vFRcDepts   = "rcdepts"
+	vFRcMembers = "rcmembers"
+)
 
 func verifNewDeptStore() *vDeptStore {
 	def := StoreDefinition[*vDept]{
@@ -152,6 +168,16 @@ func verifNewEmpStore(cfg vStoreCfg, dept *vDeptStore) *vEmpStore {
 	} else {
 		s.symBoss = s.AddFkSymbol(vFBoss, s)
 		s.symReports = s.AddFkSetSymbol(vFReports, s)
+	}
+	if cfg.links {
+		s.symDepts = s.AddFkSetSymbol(vFDepts, dept)
+		dept.symMembers = dept.AddFkSetSymbol(vFMembers, s)
+		s.depts = s.AddLinkCollection(s.symDepts, dept.symMembers)
+		dept.members = dept.AddLinkCollection(dept.symMembers, s.symDepts)
+		s.symRcDepts = s.AddFkSetSymbol(vFRcDepts, dept)
+		dept.symRcMembers = dept.AddFkSetSymbol(vFRcMembers, s)
+		s.rcDepts = s.AddRefCountedLinkCollection(s.symRcDepts, dept.symRcMembers)
+		dept.rcMembers = dept.AddRefCountedLinkCollection(dept.symRcMembers, s.symRcDepts)
 	}
 	switch cfg.fk {
 	case vFkIndexNullable:
